@@ -2,7 +2,8 @@
 
 Each conjunct is a separate function so that a failing obligation names it.  They are
 assumed by `requires` of every operation and re-established by `ensures` (inductive)."""
-from pyvc.contract import forall, forall2, forall3, implies
+from pyvc.contract import as_str, forall, forall2, forall3, implies, is_none, is_str
+from spec import api, wire
 
 
 def i_nodes(gw):
@@ -23,5 +24,62 @@ def i_children(gw):
     )
 
 
+def value_ok(version, vt, x):
+    """a stored value: text the wire can carry that is a valid `set` payload for its type in `version`"""
+    return (
+        is_str(x)
+        and api.defined(version, api.SET, vt)
+        and api.payload_ok_set(version, vt, as_str(x))
+        and wire.carriable(as_str(x))
+    )
+
+
+def i_values(gw):
+    """I-values: every reported value re-validates under the gateway's version (it was validated when it came in)."""
+    return forall3(
+        gw.sensors,
+        lambda n: gw.sensors[n].children,
+        lambda n, c: gw.sensors[n].children[c].values,
+        lambda n, c, vt: value_ok(gw.protocol_version, vt, gw.sensors[n].children[c].values[vt]),
+    )
+
+
+def i_desired(gw):
+    """I-desired: every pending desired value is deliverable as a valid set command (accepted => deliverable, C08)."""
+    return forall3(
+        gw.sensors,
+        lambda n: gw.sensors[n].new_state,
+        lambda n, c: gw.sensors[n].new_state[c].values,
+        lambda n, c, vt: is_none(gw.sensors[n].new_state[c].values[vt])
+        or value_ok(gw.protocol_version, vt, gw.sensors[n].new_state[c].values[vt]),
+    )
+
+
+def word(x):
+    return 0 <= x and x <= 65535
+
+
+def i_ota(gw):
+    """I-ota: every scheduled (type, version) and every firmware entry fits the 16-bit wire fields;
+    the stored image is whole blocks."""
+    return (
+        forall(gw.tasks.ota.requested, lambda n: word(gw.tasks.ota.requested[n][0]) and word(gw.tasks.ota.requested[n][1]))
+        and forall(gw.tasks.ota.unstarted, lambda n: word(gw.tasks.ota.unstarted[n][0]) and word(gw.tasks.ota.unstarted[n][1]))
+        and forall(gw.tasks.ota.started, lambda n: word(gw.tasks.ota.started[n][0]) and word(gw.tasks.ota.started[n][1]))
+        and forall(
+            gw.tasks.ota.firmware,
+            lambda t, v: word(t)
+            and word(v)
+            and word(gw.tasks.ota.firmware[t, v]["blocks"])
+            and word(gw.tasks.ota.firmware[t, v]["crc"])
+            and len(gw.tasks.ota.firmware[t, v]["data"]) == 16 * gw.tasks.ota.firmware[t, v]["blocks"],
+        )
+    )
+
+
 def inv_shape(gw):
     return i_nodes(gw) and i_children(gw)
+
+
+def inv(gw):
+    return i_nodes(gw) and i_children(gw) and i_values(gw) and i_desired(gw) and i_ota(gw)
